@@ -455,7 +455,7 @@ pub fn run(run: &Run) {
     run.section_exhaustive("small-l-table", true, "L in 0..=20 x sender role x {wt, raw} receiver, probes at 0, 1, max-1, max, max+1, max+2");
     prop_search(
         run,
-        Search { check: "datagrams", cases: run.tier.pick(600, 6000), workers: 8, max_shrink_iters: 60 },
+        Search { check: "datagrams", cases: run.tier.pick(600, 20000), workers: 8, max_shrink_iters: 60 },
         case_strategy,
         |c| judge(|| exec(c), false, "C03:hang"),
         |c| serde_json::to_value(c).unwrap(),
